@@ -31,6 +31,7 @@ func runC02(c *Ctx) {
 	c02MergeTable(c, a)
 	c02ArgUntouched(c, a, "C02-D2")
 	c02AnyKind(c, a)
+	c02DenseAdds(c, "C02-D4")
 	// the exact variant merges its statistics too: every accumulator folded, min with <, max with > independently
 	c10StatObject(c, a, "C02-D5", "MergeWith")
 	// a merge is refused when the mappings are not Equal: a mapping must at least equal itself and its copies
@@ -487,4 +488,114 @@ func c02WindowCovers(p *Path) bool {
 		}
 	}
 	return lowOK && highOK
+}
+
+// c02DenseAdds (D4): the same-kind merge of the dense store adds every bin of the argument to the receiver's slot of
+// the SAME index: on every path that enters the loop, s.bins[i − s.offset] = s.bins[i − s.offset] + o.bins[i − o.offset]
+// with one i for both sides, starting at o.minIndex and continuing while i ≤ o.maxIndex.
+func c02DenseAdds(c *Ctx, rule string) {
+	dense := c.P.NamedType(pkgStore, "DenseStore")
+	if dense == nil {
+		return
+	}
+	f := c.P.DeclaredMethod(dense, "MergeWith")
+	if !c.mustFunc(rule, f, "DenseStore.MergeWith") {
+		return
+	}
+	paths, _ := exec(c, f, nil, 2)
+	isArg := func(t *Term) bool { t = t.unver(); return t.Op == "extract" && t.Sym == "0" && t.Args[0].Op == "assert" }
+	fieldOf := func(t *Term, obj func(*Term) bool) string {
+		t = t.unver()
+		if t.Op == "field" && len(t.Args) == 1 && obj(t.Args[0]) {
+			return t.Sym
+		}
+		return ""
+	}
+	isRecv := func(t *Term) bool { return t.unver().isParam(0) }
+	nAdd := 0
+	bad := ""
+	for _, p := range paths {
+		same := false
+		for _, cd := range p.Conds {
+			if t := cd.Term; t.Op == "extract" && t.Sym == "1" && t.Args[0].Op == "assert" && cd.Taken {
+				same = true
+			}
+		}
+		if !same {
+			continue
+		}
+		first := true
+		for _, e := range p.Effects {
+			if e.Kind != "store" || e.Addr.Op != "index" {
+				continue
+			}
+			binsF := fieldOf(e.Addr.Args[0], isRecv)
+			if binsF == "" {
+				continue
+			}
+			nAdd++
+			v := e.Val
+			var src *Term
+			if v.isBin("+") {
+				for i := 0; i < 2; i++ {
+					if stripVers(v.Args[i]).Key() == stripVers(e.Addr).Key() {
+						src = v.Args[1-i]
+					}
+				}
+			}
+			if src == nil || src.unver().Op != "index" || fieldOf(src.unver().Args[0], isArg) != binsF {
+				bad = firstNonEmpty(bad, "a receiver bin is overwritten with "+shorten(v.Key(), 120)+" instead of itself plus the argument's bin")
+				continue
+			}
+			// same index on both sides: (A + s.offset) − (B + o.offset) = 0, where the offsets are the fields subtracted
+			A, B := linearOf(e.Addr.Args[1]), linearOf(src.unver().Args[1])
+			d := linCombine(A, B, -1)
+			okIdx := d.Const == 0 && len(d.Coef) == 2
+			var offS, offO string
+			for k, cf := range d.Coef {
+				at := d.Atoms[k]
+				switch {
+				case cf == -1 && fieldOf(at, isRecv) != "":
+					offS = fieldOf(at, isRecv)
+				case cf == 1 && fieldOf(at, isArg) != "":
+					offO = fieldOf(at, isArg)
+				default:
+					okIdx = false
+				}
+			}
+			if !okIdx || offS == "" || offS != offO {
+				bad = firstNonEmpty(bad, "the argument's bin and the receiver's slot are not addressed by the same index: "+shorten(e.Addr.Args[1].Key(), 80)+" / "+shorten(src.unver().Args[1].Key(), 80))
+				continue
+			}
+			// the first bin added is the argument's first index
+			if first {
+				first = false
+				idx := linCombine(A, linearOf(mk("field", offS, nil, mk("param", "0", nil))), 1)
+				okFirst := idx.Const == 0 && len(idx.Coef) == 1
+				for k, cf := range idx.Coef {
+					if cf != 1 || fieldOf(idx.Atoms[k], isArg) != dr.minIndex {
+						okFirst = false
+					}
+				}
+				if !okFirst {
+					bad = firstNonEmpty(bad, "the first bin added is not at the argument's first index")
+				}
+				// the loop goes on while i ≤ the argument's last index: the path, which has added a bin, has taken
+				// `i ≤ o.max` for that i (and a path that stops has left `i' ≤ o.max` for the next one)
+				okBound := false
+				for _, cd := range p.Conds {
+					t := cd.Term
+					if t.isBin("<=") && cd.Taken && cd.Seq < e.Seq && fieldOf(t.Args[1], isArg) == dr.maxIndex {
+						if dd := linCombine(linearOf(t.Args[0]), idx, -1); dd.Const == 0 && len(dd.Coef) == 0 {
+							okBound = true
+						}
+					}
+				}
+				if !okBound {
+					bad = firstNonEmpty(bad, "the bin loop is not controlled by i ≤ the argument's last index")
+				}
+			}
+		}
+	}
+	c.R.check(bad == "" && nAdd > 0, rule, "DenseStore.MergeWith/bin-by-bin", shortFn(f), c.fpos(f), "every bin of the argument is added to the receiver's slot of the same index, from the argument's first index on", firstNonEmpty(bad, fmt.Sprintf("%d add(s) on the enumerated paths", nAdd)))
 }
